@@ -245,24 +245,31 @@ FAMILIES = [
 
 
 def family_of(names):
-    """every member of the component must belong to a frozen family; the class reported is that of the first member's family"""
-    first = None
-    for n in names:
-        hit = None
+    """every member of the component must belong to a frozen family; the class reported is that of the first member's family.
+    A member that is in no family but is a method of the same class as a member that is (a helper split off one of the frozen methods: extract-method, split-function) is taken to
+    belong to that member's family: the families are arguments about what a class's recursion descends along, not about how many methods it is spread over."""
+    def fam(n):
         for (rx, cls, reason) in FAMILIES:
             if re.search(rx, n):
-                hit = (cls, reason, rx)
-                break
-        if hit is None:
-            return None
-        if first is None:
-            first = hit
-    classes = set()
+                return (cls, reason, rx)
+        return None
+
+    def klass(n):
+        return n.rsplit('::', 1)[0] if '::' in n else ''
+    hits = {}
     for n in names:
-        for (rx, cls, reason) in FAMILIES:
-            if re.search(rx, n):
-                classes.add(cls)
-                break
+        hits[n] = fam(n)
+    by_class = {}
+    for n, h in hits.items():
+        if h is not None and klass(n) not in ('', 'muscle', 'muscle::muscle_private'):
+            by_class.setdefault(klass(n), h)
+    for n in names:
+        if hits[n] is None and klass(n) in by_class:
+            hits[n] = by_class[klass(n)]
+    if any(h is None for h in hits.values()):
+        return None
+    first = hits[names[0]]
+    classes = set(h[0] for h in hits.values())
     cls = 'message-nesting' if 'message-nesting' in classes else ('node-depth' if 'node-depth' in classes else first[0])
     return cls, first[1], first[2]
 
